@@ -275,11 +275,26 @@ func runC10(r *Run) {
 	if pe := r.fn(P, pkgParser, "Parser.isPatchEnabled"); pe != nil {
 		ff := r.E.Facts(pe, core.Ctx{})
 		ok := false
+		nTrue := 0
+		ok = true
 		for _, ri := range ff.Returns() {
-			if c, isC := core.RetOp(ri.Ret, 0).(*ssa.Const); isC && c.Value.String() == "true" {
-				ok = core.HasFact(ri.Facts, "cmp($0.Protocol.Patches[_] == $1)")
+			v := core.RetOp(ri.Ret, 0)
+			if c, isC := v.(*ssa.Const); isC {
+				if c.Value.String() == "true" {
+					nTrue++
+					ok = ok && core.HasFact(ri.Facts, "cmp($0.Protocol.Patches[_] == $1)")
+				}
+				continue
 			}
+			// the answer of a membership helper handed on: what its being true implies must contain the element match
+			nTrue++
+			set := ri.Facts.Clone()
+			for _, fc := range ff.CondFacts(v, true, ri.Ret.Block()) {
+				set[fc.Key()] = fc
+			}
+			ok = ok && core.HasFact(set, "cmp($0.Protocol.Patches[_] == $1)")
 		}
+		ok = ok && nTrue > 0
 		r.R.Check(ok, P+".accept.patches.member", "E2: isPatchEnabled returns true only under Protocol.Patches[i] == action", core.FuncName(pe), r.where(pe),
 			"enablement must be membership in the protocol's patch list", "true only on an element match", "a true return is not guarded by an element match")
 	}
